@@ -18,6 +18,10 @@ use vstd::std_specs::cmp::OrdSpec;
 //@map /Map<PaymentHash, u64>/ => VxPayMap
 //@map /&\*state\b/ => &state
 //@map /&dyn Wallet/ => &VxNode
+//@map /&self\.keys\.funding_key/ => self.keys.vx_funding_key()
+//@map /Option<Address>/ => Option<VxAddress>
+//@map /bitcoin::Transaction/ => Transaction
+//@map /Vec<HTLCInfo>/ => Vec<VxHTLCInfo>
 verus! {
 
 //@@TAGS
@@ -88,7 +92,44 @@ impl Channel {
         r.is_ok() ==> final(self).persisted@ == final(self).enforcement_state,                                     //[C11.sign-cp.persisted]
 //@end
 
+//@fn vls-core/src/channel.rs :: impl Channel :: sign_counterparty_commitment_tx props=C03,C04,C10,C11
+    requires
+        commitment_number < INITIAL_COMMITMENT_NUMBER, chan_wf(*old(self)),
+        htlcs_msat_fit(offered_htlcs@), htlcs_msat_fit(received_htlcs@),
+    ensures
+        chan_static_eq(*final(self), *old(self)),
+        // C04: the raw entry point accepts a transaction only if it is exactly the canonical transaction rebuilt from the
+        // channel's own parameters and the validated content, and signs that transaction (never the supplied bytes)
+        r.is_ok() ==> exists|info2: CommitmentInfo2| info2.is_counterparty_broadcaster
+            && info2.offered_htlcs@.to_multiset() == offered_htlcs@.to_multiset() && info2.received_htlcs@.to_multiset() == received_htlcs@.to_multiset()
+            && info2.feerate_per_kw == feerate_per_kw
+            && ({
+                let ctx = cp_ctx_spec(old(self).keys, old(self).setup, *remote_per_commitment_point, commitment_number, feerate_per_kw,
+                    info2.to_countersigner_value_sat, info2.to_broadcaster_value_sat, oic_spec(info2.offered_htlcs@, info2.received_htlcs@));
+                (vx_strict(T_policy_commitment) ==> ctx_built_tx(ctx) == *tx)                                          //[C04.sign-cp-phase1.raw-equals-canonical]
+                && r->Ok_0 == ecdsa_sign(message_of_digest(sighash_p2wsh(ctx_built_tx(ctx), 0,
+                        funding_redeemscript(ldk_pubkeys(old(self).keys).funding_pubkey, old(self).setup.counterparty_points.funding_pubkey),
+                        old(self).setup.channel_value_sat, EcdsaSighashType::All)), ldk_funding_key(old(self).keys))   //[C04.sign-cp-phase1.signs-rebuilt-tx]
+                && final(self).enforcement_state == es_set_cp_commit(old(self).enforcement_state, (commitment_number + 1) as u64,
+                    *remote_per_commitment_point, info2)                                                            //[C03.sign-cp-phase1.frame]
+            }),
+        r.is_ok() && cp_strict() ==> commitment_number <= old(self).enforcement_state.next_counterparty_revoke_num + 1,   //[C03.sign-cp-phase1.revoked-prefix]
+        r.is_ok() && cp_strict() ==> cp_commit_guard(old(self).enforcement_state, (commitment_number + 1) as u64),        //[C03.sign-cp-phase1.guard]
+        r.is_err() ==> final(self).enforcement_state == old(self).enforcement_state
+            && final(self).persisted == old(self).persisted,                                                       //[C10.sign-cp-phase1.err-frame]
+        r.is_ok() ==> final(self).persisted@ == final(self).enforcement_state,                                     //[C11.sign-cp-phase1.persisted]
+//@proof before /let htlcs = Self::htlcs_info2_to_oic/
+        proof {
+            lemma_msat_fit_multiset(offered_htlcs@, info2.offered_htlcs@);
+            lemma_msat_fit_multiset(received_htlcs@, info2.received_htlcs@);
+        }
+//@end
+
 } // impl Channel
+
+#[verifier::external_body] pub struct VxAddress { _p: u8 }
+#[verifier::external_body] pub struct VxHTLCInfo { _p: u8 }
+//@type vls-core/src/tx/tx.rs :: CommitmentInfo
 
 } // verus!
 fn main() {}
